@@ -42,6 +42,17 @@ def main():
     e[1]['out'] = e[1]['out'][:-1]                  # last list element dropped
     ok &= show('Trace_OmkmRange', 'range: last list element dropped', e, ['NoneLost'])
     e = copy.deepcopy(ev)
+    e[1]['kind'], e[1]['out'] = 'text', e[0]['out']  # format='list' answered with the str layout
+    ok &= show('Trace_OmkmRange', 'range: list form returned as a str', e, ['OutputFormIsList'])
+    e = copy.deepcopy(ev)
+    e[0]['kind'], e[0]['out'] = 'elems', e[1]['out']  # format='str' answered with a list
+    ok &= show('Trace_OmkmRange', 'range: str form returned as a list', e, ['OutputFormIsString'])
+    e = copy.deepcopy(ev)
+    e[0]['ids'] = [c18.codes('abc')]
+    e[0]['after'] = [c18.codes('abc')]
+    e[0]['out'] = c18.codes('["abc"]')              # an id without integer suffix passed through
+    ok &= show('Trace_OmkmRange', 'range: non-integer id not rejected', e, ['MustReject'])
+    e = copy.deepcopy(ev)
     e[0]['after'] = e[0]['after'][1:]
     ok &= show('Trace_OmkmRange', 'range: collection changed by the call', e, ['InputUntouched'])
     e = copy.deepcopy(ev)
